@@ -193,7 +193,7 @@ Definition put_verified (E : env) (s : state) (k : key) (v : value) (t : rtype) 
   else
     let s1 := set_cache s (cache_push E (kremove k (cache s)) k v) in
     match prune E s1 k with
-    | None => (PRefused, s1)
+    | None => (PRefused, set_cache s1 (kremove k (cache s1)))   (* refused: taken out of the cache again *)
     | Some s2 => (PStored, set_tasks s2 (tasks s2 ++ [TWrite k v t]))
     end.
 
@@ -457,6 +457,14 @@ Definition unacked (s : state) (k : key) : bool :=
                     | _ => false
                     end) (tasks s)
   || existsb (notif_stored_for k) (chan s).
+
+(* a write of k, or the notification of its outcome, is still pending *)
+Definition notif_for (k : key) (n : notif) : bool :=
+  match n with NStored k' _ => keyb k k' | NFailed k' => keyb k k' end.
+Definition task_for (k : key) (t : task) : bool :=
+  match t with TWrite k' _ _ => keyb k k' | TSend n => notif_for k n | _ => false end.
+Definition in_flight (s : state) (k : key) : bool :=
+  existsb (task_for k) (tasks s) || existsb (notif_for k) (chan s).
 
 (* the keys a step takes out of the index (explicit removal, eviction, clean-up, failed write) *)
 Definition evicted_by_put (E : env) (s : state) (k : key) (v : value) : list key :=
